@@ -176,7 +176,7 @@ na = [{"property_id": i, "reason": NA.get(i, "check not built yet (work in progr
       for i in ids if i not in CHECKS]
 m = {
     "version": 1,
-    "setup_cmd": "true",
+    "setup_cmd": "python3 tools/prebuild.py",
     "hooks": {"guard": "TLX_VERIF",
               "enable": "no source hooks: harness TUs are compiled with -include engine/sched/vshim.hpp (shadow namespace tlx::std) against unmodified /repo sources",
               "baseline_off_cmd": "ctest --test-dir /repo/_build -j8 --timeout 900",
